@@ -131,8 +131,60 @@ def _generations(inst, res):
     return res
 
 
+def _names(inst, res):
+    """a module stored under a name of the user's choice (other suffixes, dots in the name) next to other module files: loading that name
+    yields that module, whatever lies beside it"""
+    from nsl import LinearIR
+    A_SRC = "export function f(int a) -> int { return a * 2 + 1; }"
+    B_SRC = "export function f(int a) -> int { return a * 5 - 3; }"
+    tmp = tempfile.mkdtemp(prefix="verif-c17n-")
+    res["sample"] = dict(kind="names", stored_as=inst["stored_as"], beside=inst["beside"])
+    try:
+        a = joint.compile_source(A_SRC)
+        b = joint.compile_source(B_SRC)
+        for name in inst["beside"]:
+            with open(os.path.join(tmp, name), "wb") as f:
+                pickle.dump(a.IRModule, f)
+        target = os.path.join(tmp, inst["stored_as"])
+        if inst.get("by") == "nslc":
+            sp = os.path.join(tmp, "src.nsl")
+            open(sp, "w").write(B_SRC)
+            ok, text = nslc(sp, target, False, tmp)
+            if not ok:
+                res["violations"].append(dict(what=f"nslc.py -o {inst['stored_as']} failed: {text}", replay=dict(harness="C17", inst=inst, kind="names")))
+                return res
+        else:
+            with open(target, "wb") as f:
+                pickle.dump(b.IRModule, f)
+        res["paths"] += 1
+        try:
+            mod = LinearIR.FilesystemModuleLoader().Load(target)
+            want, got = describe(b.IRModule), describe(mod)
+        except Exception as e:  # noqa: BLE001
+            res["violations"].append(dict(what=f"module stored as '{inst['stored_as']}' (beside {inst['beside']}) cannot be loaded by that name: {type(e).__name__}: {str(e)[:100]}",
+                                          replay=dict(harness="C17", inst=inst, kind="names")))
+            return res
+        diffs = [x for x in want if want[x] != got[x]]
+        if diffs:
+            other = describe(a.IRModule)
+            res["violations"].append(dict(what=f"loading '{inst['stored_as']}' (stored beside {inst['beside']}) yields another module: differs in {diffs}" +
+                                               ("; it is the module of the neighbouring file" if all(other[x] == got[x] for x in other) else ""),
+                                          replay=dict(harness="C17", inst=inst, kind="names")))
+        res["nontrivial"] = True
+    except joint.Rejected as e:
+        res["errors"].append(f"program rejected: {e}")
+    finally:
+        shutil.rmtree(tmp, ignore_errors=True)
+    return res
+
+
 def run_instance(inst):
     from nsl import LinearIR
+    if inst.get("kind") == "names":
+        r = dict(paths=0, queries=0, unsat=0, sat=0, undecided=0, cut=0, violations=[], errors=[], nontrivial=False, known=[], solver_time=0.0)
+        r["key"] = repr(sorted((k, str(v)) for k, v in inst.items()))
+        r["funcs"] = FUNCS
+        return _names(inst, r)
     if inst.get("kind") == "generations":
         r = dict(paths=0, queries=0, unsat=0, sat=0, undecided=0, cut=0, violations=[], errors=[], nontrivial=False, known=[], solver_time=0.0)
         r["key"] = repr(sorted(inst.items()))
@@ -217,7 +269,7 @@ FUNCS = ["nslc.py (child process)", "pickle.dump(Result.IRModule)", "nsl.LinearI
 def replay(spec):
     from nsl import LinearIR
     inst = spec["inst"]
-    if inst.get("kind") == "generations":
+    if inst.get("kind") in ("generations", "names"):
         r = run_instance(inst)
         return dict(violations=[v["what"] for v in r["violations"]][:2]) if r["violations"] else None
     src = inst["source"]
@@ -318,6 +370,10 @@ def run(tier, seed, only=None):
         for opt in (False, True):
             insts.append(dict(kind="generations", case=case, optimize=opt, fixed_time=True))
         insts.append(dict(kind="generations", case=case, optimize=False, fixed_time=False))
+    for stored_as, beside in (("filter.v2", ["filter.nslir"]), ("filter.v2", ["filter.v1", "filter.nslir", "filter.v2.nslir"]), ("lib.opt.nslir", ["lib.nslir", "lib.opt"]), ("m.nslir", ["m", "m.v2"]),
+                              ("scene.main", ["scene.nslir", "scene.aux"]), ("a.b.c", ["a.nslir", "a.b.nslir"]), ("plain", ["plain.nslir"])):
+        for by in ("pickle", "nslc"):
+            insts.append(dict(kind="names", stored_as=stored_as, beside=beside, by=by))
     try:
         results = core.run_pool("vlib.harness.C17", "run_instance", insts)
     finally:
